@@ -10,14 +10,16 @@
 (***************************************************************************)
 EXTENDS Aggs, AggTable, TLC
 
-CONSTANTS MaxLen, NLabels, SplitEverys, DtypeClass, WithMissing
+CONSTANTS MaxLen, NLabels, SplitEverys, DtypeClass, WithMissing, Positional
 
 AlphaF8 == {<<-2,1>>, <<1,1>>, <<0,0>>, <<-1,0>>}
 AlphaI8 == {<<-2,1>>, <<0,1>>, <<3,1>>}
 AlphaB1 == {<<0,1>>, <<1,1>>}
-Alphabet == IF DtypeClass = "f8" THEN AlphaF8 ELSE IF DtypeClass = "i8" THEN AlphaI8 ELSE AlphaB1
+AlphaTies == {<<1,1>>, <<2,1>>, <<0,0>>}     \* forces ties and NaN on both sides of every boundary (C06)
+PositionalNames == {"argmax", "argmin", "nanargmax", "nanargmin", "nanfirst", "nanlast"}
+Alphabet == IF Positional THEN AlphaTies ELSE IF DtypeClass = "f8" THEN AlphaF8 ELSE IF DtypeClass = "i8" THEN AlphaI8 ELSE AlphaB1
 
-Rows == {i \in 1..Len(AggTable) : AggTable[i].dtype = DtypeClass}
+Rows == {i \in 1..Len(AggTable) : AggTable[i].dtype = DtypeClass /\ (Positional => AggTable[i].name \in PositionalNames)}
 Labels == (0..(NLabels - 1)) \cup (IF WithMissing THEN {-1} ELSE {})
 Expected == [i \in 1..NLabels |-> i - 1]
 
